@@ -28,7 +28,7 @@ Del(f, K) == [x \in DOMAIN f \ K |-> f[x]]
 SetOf(sq) == {sq[i] : i \in 1..Len(sq)}
 
 InitStr == [grp |-> <<>>, usr |-> <<>>, req |-> <<>>, sreq |-> <<>>, pend |-> <<>>, live |-> <<>>, held |-> <<>>,
-            aborted |-> {}, noans |-> {}, ending |-> {}, cur |-> None, bad |-> "ok"]
+            aborted |-> {}, noans |-> {}, ending |-> {}, cur |-> None, pipe |-> FALSE, bad |-> "ok"]
 
 Flag(s, v) == IF s.bad = "ok" /\ v # "ok" THEN [s EXCEPT !.bad = v] ELSE s
 FirstBad(vs) == LET b == SelectSeq(vs, LAMBDA x : x # "ok") IN IF b = <<>> THEN "ok" ELSE b[1]
@@ -78,7 +78,8 @@ Depart(s, c) ==
 \* m: [type, id, label, tracks, replace, req (function), kinds (set)]
 MStim(s0, c, m) ==
   LET s == [s0 EXCEPT !.cur = [c |-> c, type |-> m.type]] IN
-  CASE m.type = "request" -> IF Grp(s, c) = "" THEN s ELSE [s EXCEPT !.req = Put(@, c, m.req)]
+  \* (pipelined: the join that precedes the request on the same socket may not have been acknowledged yet)
+  CASE m.type = "request" -> IF Grp(s, c) = "" /\ ~s.pipe THEN s ELSE [s EXCEPT !.req = Put(@, c, m.req)]
     \* (asking for nothing of one stream is the subscriber's own way of dropping it: like an abort, it lasts until the next offer)
     [] m.type = "requestStream" ->
          IF ~Has(s.held, <<c, m.id>>) THEN s
@@ -89,6 +90,9 @@ MStim(s0, c, m) ==
     [] m.type = "abort" -> [s EXCEPT !.aborted = @ \cup {<<c, m.id>>}]
     [] m.type = "leave" -> Depart(s, c)
     [] m.type = "noanswer" -> [s EXCEPT !.noans = @ \cup {c}]
+    \* the driver will not wait for quiescence between the stimuli of this behaviour: what a message should carry at the
+    \* instant it is sent is then not known to the monitor; only identity is judged per message, the rest at quiescence
+    [] m.type = "pipelined" -> [s EXCEPT !.pipe = TRUE]
     \* an operator kicks m.id or takes its right to present away: if the server obeys, that client's streams end (the
     \* subscribers' closes may arrive before the monitor sees the publisher go)
     [] m.type \in {"kick", "unpresent"} -> [s EXCEPT !.ending = @ \cup {id \in DOMAIN s.live : s.live[id].owner = m.id}]
@@ -117,14 +121,14 @@ MRecv(s, c, m) ==
              known == Has(s.live, id)
              o == IF known THEN s.live[id].owner ELSE ""
              v == FirstBad(<<
-               IF Grp(s, c) = "" THEN "C07_O1_stream_offered_to_a_client_that_has_not_joined" ELSE "ok",
+               IF ~s.pipe /\ Grp(s, c) = "" THEN "C07_O1_stream_offered_to_a_client_that_has_not_joined" ELSE "ok",
                IF ~known THEN "C07_O1_offer_for_a_stream_that_is_not_being_published" ELSE "ok",
-               IF known /\ Grp(s, c) # Grp(s, o) THEN "C07_O1_stream_offered_to_a_member_of_another_group" ELSE "ok",
+               IF ~s.pipe /\ known /\ Grp(s, c) # Grp(s, o) THEN "C07_O1_stream_offered_to_a_member_of_another_group" ELSE "ok",
                IF known /\ (m.source # o \/ m.username # Get(s.usr, o, "")) THEN "C07_O2_offer_not_labelled_with_the_publishers_id_and_username" ELSE "ok",
                IF known /\ m.label # s.live[id].label THEN "C07_O2_offer_carries_another_label" ELSE "ok",
-               IF known /\ Want(s, c, id) = <<>> THEN "C07_O3_stream_offered_although_not_requested" ELSE "ok",
-               IF known /\ ~OfferOK(s, c, id, m.tracks) THEN "C07_O3_offered_tracks_differ_from_the_requested_kinds" ELSE "ok",
-               IF OwnBusiness(s, c) THEN "C07_X2_anothers_abort_or_request_changed_this_clients_downstream" ELSE "ok">>)
+               IF ~s.pipe /\ known /\ Want(s, c, id) = <<>> THEN "C07_O3_stream_offered_although_not_requested" ELSE "ok",
+               IF ~s.pipe /\ known /\ ~OfferOK(s, c, id, m.tracks) THEN "C07_O3_offered_tracks_differ_from_the_requested_kinds" ELSE "ok",
+               IF ~s.pipe /\ OwnBusiness(s, c) THEN "C07_X2_anothers_abort_or_request_changed_this_clients_downstream" ELSE "ok">>)
          \* an offer that replaces another stream takes the place of that downstream (no separate close is sent for it)
          IN Flag([s EXCEPT !.held = Put(IF m.replace # "" THEN Del(@, {<<c, m.replace>>}) ELSE @, <<c, id>>, m.tracks),
                            !.aborted = @ \ {<<c, id>>}], v)
@@ -138,8 +142,8 @@ MRecv(s, c, m) ==
                            \/ Want(s, c, id) = <<>>                          \* not / no longer requested
                            \/ <<c, id>> \in s.aborted \/ c \in s.noans       \* the subscriber's own abort, failed negotiation
                   v == FirstBad(<<
-                    IF ~legit THEN "C07_X1_close_for_a_live_requested_stream" ELSE "ok",
-                    IF OwnBusiness(s, c) THEN "C07_X2_anothers_abort_or_request_changed_this_clients_downstream" ELSE "ok">>)
+                    IF ~s.pipe /\ ~legit THEN "C07_X1_close_for_a_live_requested_stream" ELSE "ok",
+                    IF ~s.pipe /\ OwnBusiness(s, c) THEN "C07_X2_anothers_abort_or_request_changed_this_clients_downstream" ELSE "ok">>)
               IN Flag([s EXCEPT !.held = Del(@, {<<c, id>>}), !.sreq = Del(@, {<<c, id>>})], v)
     [] OTHER -> s
 
